@@ -112,7 +112,7 @@ Modelled(e) == PhasesOf(e) \cup (IF Entry(e).kind = "endpoint" THEN Terminal ELS
 AllMuts == {"trunc_before", "trunc_before_fix", "trunc_inside", "trunc_inside_fix",
             "len_0", "len_m1", "len_p1", "len_max",
             "count_0", "count_p1", "count_max",
-            "tag_unknown", "dup", "dup_fill", "dup_fill_empty", "empty"}
+            "tag_unknown", "val_0", "val_max", "dup", "dup_fill", "dup_fill_empty", "empty"}
 
 Applicable(l, m) ==
   IF l.k \in TextKinds
@@ -128,6 +128,7 @@ Applicable(l, m) ==
          [] m \in {"len_0", "len_m1", "len_p1", "len_max"} -> l.k = "len"
          [] m \in {"count_0", "count_p1", "count_max"} -> l.k = "count"
          [] m = "tag_unknown" -> l.k = "tag"
+         [] m \in {"val_0", "val_max"} -> l.k = "fixed" /\ ~l.ov /\ l.w <= 8     \* boundary values of a plain field
          [] m \in {"dup", "dup_fill", "dup_fill_empty"} -> l.el
          [] m = "empty" -> l.k \in {"var", "rest"}
          [] OTHER -> FALSE
